@@ -23,7 +23,7 @@ PLAN = {
               ("rtable", "rtable", "small", 0, 1600, None), ("dense", "dense", "big", 0, 1200, None)],
     "thorough": [("prec", "prec", "big", 0, None, None), ("unk", "unk", "small", 0, None, None),
                  ("table", "table", "small", 17, None, None), ("ext3", "ext", "small", 3, None, None),
-                 ("dense", "dense", "big", 0, 30000, None)],
+                 ("dense", "dense", "big", 0, 16000, None)],
 }
 
 ASSUMPTIONS = [
@@ -87,9 +87,10 @@ def model_cfg(d, name, mode, vocab, weight):
 def explore(d, tier, rng):
     jobs = []
     for name, mode, vocab, weight, sim, cap in PLAN[tier]:
-        kw = dict(workers=4)
+        kw = dict(workers=4 if tier == "quick" else max(4, lib.NCPU // 2))
         if sim:
-            kw.update(simulate=max(1, sim // 4), depth=8, tlc_seed=lib.seed() + 31)
+            # RandomElement / RandomSubset draw from one seeded stream: several workers would repeat the same cases
+            kw = dict(workers=1, simulate=sim, depth=8, tlc_seed=lib.seed() + 31)
         jobs.append((name, model_cfg(d, name, mode, vocab, weight), kw, cap))
 
     def one(job):
@@ -111,6 +112,64 @@ def explore(d, tier, rng):
                 cases.append(c)
             models.append(r)
     return models, cases, emitted
+
+
+NSELF = 6
+
+
+def selftests(traces, options):
+    """Binding self-test (R5): copies of recorded loads with ONE observation corrupted; the trace
+    specification must reject each at that event with the named clause."""
+    import copy
+    table = dict((o["name"], o) for o in options)
+    true = {"t": "bool", "b": True, "n": 0, "s": ""}
+    want, out = {}, []
+
+    def add(tag, t, i, clause, mutate):
+        if "selftest/" + tag in want:
+            return
+        c = copy.deepcopy(t)
+        c["id"] = "selftest/" + tag
+        mutate(c["events"])
+        want[c["id"]] = (i + 1, clause)
+        out.append(c)
+
+    def setv(cfg, name, v):
+        cfg[:] = [r for r in cfg if r["name"] != name] + ([{"name": name, "v": v}] if v is not None else [])
+
+    for t in traces:
+        evs = t["events"]
+        if len(evs) != 3 or evs[-1]["ev"] != "final":
+            continue
+        loaded = set(r["name"] for r in evs[0]["cfg"])
+        final = set(r["name"] for r in evs[2]["cfg"])
+        flags = [r["name"] for r in t["lay"]["cli"] if r["name"] in table and table[r["name"]]["cli"] == "flag_true"]
+        if flags and flags[0] in loaded:
+            add("cli-value-lost", t, 0, "Precedence", lambda e: setv(e[0]["cfg"], flags[0], None))
+        if "offline" in final and "status" not in final:
+            add("offline-status", t, 2, "OfflineConsistent", lambda e: setv(e[2]["cfg"], "status", true))
+        if "output_dir" in final and "keep_archive" not in final:
+            add("output-keep", t, 2, "OutputConsistent", lambda e: setv(e[2]["cfg"], "keep_archive", true))
+        if "obfuscate" not in final and "obfuscate_hostname" not in final:
+            add("obfuscation", t, 2, "ObfuscationConsistent", lambda e: setv(e[2]["cfg"], "obfuscate_hostname", true))
+        if "offline" not in loaded and "checkin" not in loaded:
+            add("resolved", t, 2, "RejectedNotResolved",
+                lambda e: (setv(e[0]["cfg"], "offline", true), setv(e[0]["cfg"], "checkin", true)))
+        if evs[2].get("unknown"):
+            add("unknown-set", t, 2, "UnknownIgnored", lambda e: e[2]["unknown"][0].update(state="injected"))
+        if len(want) == NSELF:
+            break
+    return out, want, NSELF - len(want)
+
+
+def check_selftests(val, want):
+    mine = [r for r in val["rejected"] if r["id"].startswith("selftest/")]
+    val["rejected"] = [r for r in val["rejected"] if not r["id"].startswith("selftest/")]
+    for tid, (line, clause) in sorted(want.items()):
+        if not any(r["id"] == tid and r["line"] == line and r["clause"].startswith(clause) for r in mine):
+            raise lib.MachineryError("self-test: corrupted load %s was not rejected at event %d by %s (got %s)"
+                                     % (tid, line, clause, [r for r in mine if r["id"] == tid]))
+    return len(want)
 
 
 def execute(cases):
@@ -192,6 +251,7 @@ REQUIRED = ["sources:file", "sources:env", "sources:cli", "sources:env+file", "s
 
 
 def run(prop, tier):
+    verdict = lib.Verdict(prop, tier)       # starts the wall clock of the evidence record
     rng = random.Random(lib.seed())
     t0 = time.time()
     options = lib.run_driver("drive_clientconfig.py", dict(task="table"))["options"]
@@ -206,14 +266,19 @@ def run(prop, tier):
     if len(traces) != len(cases):
         raise lib.MachineryError("driver returned %d traces for %d cases" % (len(traces), len(cases)))
     t1 = time.time()
-    val = lib.validate_traces(os.path.join(d, "CCTrace"), os.path.join(d, "CCTrace.cfg"), traces,
+    corrupted, want, lacking_self = selftests(traces, options)
+    val = lib.validate_traces(os.path.join(d, "CCTrace"), os.path.join(d, "CCTrace.cfg"), traces + corrupted,
                               jobs=min(lib.NCPU, 8))
     print("timing: validation %.1fs (%d events, %d JVMs)" % (time.time() - t1, val["events"], val["jvms"]))
-    if val["events"] != sum(len(t["events"]) for t in traces):
+    if val["events"] != sum(len(t["events"]) for t in traces + corrupted):
         raise lib.MachineryError("trace validation judged %d of %d events"
-                                 % (val["events"], sum(len(t["events"]) for t in traces)))
-    verdict = lib.Verdict(prop, tier)
+                                 % (val["events"], sum(len(t["events"]) for t in traces + corrupted)))
+    nself = check_selftests(val, want)
+    val["traces"] -= len(corrupted)
+    val["events"] -= sum(len(t["events"]) for t in corrupted)
     notes = judge(prop, verdict, val, traces, cases)
+    if lacking_self and not verdict.violations:
+        raise lib.MachineryError("self-test: no recorded load to corrupt for %d of %d mutations" % (lacking_self, NSELF))
     counts, nontrivial = account(traces)
     lacking = [k for k in REQUIRED if not counts.get(k)]
     if lacking:
@@ -232,7 +297,8 @@ def run(prop, tier):
              "environment texts, switches) tuples that assign at least one option",
         samples=samples, assumptions=ASSUMPTIONS,
         extra=dict(options_in_table=len(options), cases_emitted=emitted, load_outcomes=stats,
-                   antecedents_exercised=counts, design_notes=notes,
+                   antecedents_exercised=counts, design_notes=notes, selftest_corrupted_traces_rejected=nself,
+                   design_outcomes=dict(collections.Counter("%s:%s" % (c["mode"], c["design"]["outcome"]) for c in cases)),
                    invariants_checked_on_model=INVARIANTS, exhaustive=False))
     return verdict.finish(ev)
 
